@@ -90,6 +90,18 @@ func genC09(r *simrt.Rand, tier string, idx uint64) *Plan {
 	faulty := idx%5 == 4
 	p := genBase(r, "c09", faulty)
 	streamCodec(r, p)
+	// NoCopy on either side must not change what a stream delivers (handlers and readers here
+	// look at a message only until their next read)
+	// (only with the json body codec: NoCopy is specified for codecs that do not alias their
+	// input, and a decoded code/pb message aliases a buffer NoCopy has already recycled)
+	if p.Codec == "json" {
+		for i := range p.Servers {
+			p.Servers[i].NoCopy = r.Chance(1, 2)
+		}
+		for i := range p.Conns {
+			p.Conns[i].NoCopy = r.Chance(1, 2)
+		}
+	}
 	big := bigBudget(p)
 	if big > 0 {
 		big = 1
